@@ -117,7 +117,7 @@ def s2c_distance(ctx, count):
             with Sink() as ev:
                 labels, _, _ = constraint_predictions(X, C, strategy="distance")
         except Exception as e:
-            ctx.violation("CallSucceeds", SITE_D, "s2c", repr(e), case=dict(order=order, n=n, k=k))
+            MECH.append(("s2c: constraint_predictions cannot be driven as modelled", SITE_D, repr(e)[:200]))
             continue
         finally:
             numpy.random.rand = orig
@@ -128,9 +128,9 @@ def s2c_distance(ctx, count):
         assigned = [e for nm, e in ev if nm == "assigned"]
         got_seq = [(e["p"], e["c"]) for nm, e in ev if nm in ("assign_quota", "assign_extra")]
         if got_seq != order:
-            ctx.violation("SameBehaviour", SITE_D, "s2c", dict(got=got_seq, want=order), case=dict(order=order, n=n, k=k))
+            MECH.append(("SameBehaviour", SITE_D, dict(got=got_seq[:8], want=order[:8])))
         elif assigned and tuple(x + 1 for x in assigned[0]["labels"]) != final_assign:
-            ctx.violation("SameBehaviour", SITE_D, "s2c", dict(got=assigned[0]["labels"], want=final_assign), case=dict(order=order))
+            MECH.append(("SameBehaviour", SITE_D, dict(got=assigned[0]["labels"], want=final_assign)))
     shutil.rmtree(out, ignore_errors=True)
     return done
 
@@ -392,7 +392,7 @@ def s2c_gain(ctx, count):
         except AssertionError:
             ev = list(ev)
         except Exception as e:
-            ctx.violation("CallSucceeds", SITE_G, "s2c", repr(e), case=dict(seq=seq, lab0=lab0, caps=caps))
+            MECH.append(("s2c: _constraint_association_gain cannot be driven as modelled", SITE_G, repr(e)[:200]))
             continue
         done += 1
         ctx.traces += 1
@@ -406,7 +406,7 @@ def s2c_gain(ctx, count):
             ctx.skipped.append("s2c-gain: scripted set-up did not reach the behaviour's caps")
             continue
         if got != want:
-            ctx.violation("SameBehaviour", SITE_G, "s2c", dict(got=got[:12], want=want[:12]), case=dict(lab0=lab0, caps=caps, n=n, k=k))
+            MECH.append(("SameBehaviour", SITE_G, dict(got=got[:8], want=want[:8])))
     shutil.rmtree(out, ignore_errors=True)
     ctx.extra["s2c_gain"] = dict(replayed=done, not_realisable=skipped)
     return done
@@ -423,7 +423,11 @@ def _moved_before(seq, i):
     return mv
 
 
+MECH = []
+
+
 def run(ctx):
+    del MECH[:]
     boot.load()
     thorough = ctx.tier == "thorough"
     inv_q = "".join("INVARIANT %s\n" % i for i in ("Histogram", "ValidLabels", "Balanced", "NoSkip", "ExtraOnce"))
@@ -486,8 +490,43 @@ def run(ctx):
         verdicts, st = tlc.validate(mod, cfgf, trs, timeout=2400)
         ctx.states += st["states"]
         ctx.transitions += st["transitions"]
-        ctx.verdicts(verdicts, {t["id"]: t for t in trs}, SITE_D, classify=classify)
         ctx.extra.setdefault("trace_runs", []).append(dict(spec=mod, traces=len(trs), **st))
+        if mod == "QuotaFitTrace":
+            ctx.verdicts(verdicts, {t["id"]: t for t in trs}, SITE_D, classify=classify)
+            continue
+        # association level (hook H1): what the property demands of one association is its result (sizes; the call
+        # returns); the way there - the order of passes, exchanges, the bookkeeping - is the mechanism layer
+        byid = {t["id"]: t for t in trs}
+        for tid_, v in verdicts.items():
+            ctx.traces += 1
+            if v.ok:
+                continue
+            clause, sig = classify(byid[tid_], v)
+            if clause in ("Balanced", "CallSucceeds"):
+                ctx.violation(clause, byid[tid_].get("site", SITE_D), sig, v.describe(), case=byid[tid_])
+            else:
+                MECH.append((clause, byid[tid_].get("site", SITE_D), v.describe()[:300]))
+    if MECH:
+        # the code does not follow the modelled mechanism: before calling it drift, look much harder at what the property
+        # demands (sizes after fit and in balanced predictions), where a wrong association shows
+        extra = []
+        for it in range(1200 if thorough else 400):
+            k = rng.randint(2, 12)
+            n = rng.randint(k, 60)
+            d = rng.randint(1, 3)
+            strategy = rng.choice(["distance", "gain"])
+            seed = rng.randint(0, 10 ** 6)
+            kmeans0 = True if strategy == "gain" else rng.random() < 0.5
+            km, X = run_model(rng, n, k, d, strategy, kmeans0, seed, rng.choice([5, 12]), True)
+            record_fit(ctx, rng, "x%d" % it, km, X, n, k, d, strategy, kmeans0, seed, km.max_iter, True, [], [], extra)
+        verdicts, st = tlc.validate("QuotaFitTrace", "QuotaFitTrace.cfg", extra, timeout=2400)
+        ctx.states += st["states"]
+        ctx.transitions += st["transitions"]
+        ctx.verdicts(verdicts, {t["id"]: t for t in extra}, SITE_D, classify=classify)
+        ctx.extra.setdefault("trace_runs", []).append(dict(spec="QuotaFitTrace(escalation)", traces=len(extra), **st))
+        if not ctx.violations:
+            for what, site, det in MECH:
+                ctx.model_drift("ConstraintKMeans association is not a behaviour of Quota / QuotaGain (%s)" % what, site, det)
     if len(ctx.samples) < 3 and dtr:
         ctx.samples.append(dict(kind="c2s-distance", n=dtr[0]["n"], k=dtr[0]["k"], ev=dtr[0]["ev"][:6]))
     ctx.exhaustive = False
